@@ -395,7 +395,7 @@ def judge_resolved(pages, out):
 def judge_gather(spec, impl):
     """Clauses on gather_anchors, stated on the mock tree: one link per non-text non-line box carrying a
     link (rectangle = bounding box of the transformed hit area), one bookmark per labelled box, one
-    anchor per name — the first box carrying it (position checked where no bookmark interferes)."""
+    anchor per name — the first box carrying it, at its transformed hit-area corners."""
     if impl.startswith('err:'):
         return f'gather_anchors raised {impl}'
     anchors, links, bookmarks = sx.loads_line(impl)
@@ -439,8 +439,7 @@ def judge_gather(spec, impl):
         if has_bookmark:
             want_bookmarks.append([s['level'], esc(s['label']), *point(matrix, hx, hy), esc(s['state'])])
         if s['anchor'] and s['anchor'] not in want_anchors:
-            exact = not (has_bookmark and matrix is not None)
-            want_anchors[s['anchor']] = (point(matrix, hx, hy) + point(matrix, hx + hw, hy + hh)) if exact else None
+            want_anchors[s['anchor']] = point(matrix, hx, hy) + point(matrix, hx + hw, hy + hh)
         for k in s['kids']:
             walk(k, matrix)
     walk(spec, None)
@@ -800,8 +799,7 @@ class C18(PropCheck):
         return found + D.search(self, run, failures)
 
     def finding_replays(self):
-        return {'anchor-double-transform': D.replay_anchor_double_transform,
-                'dests-not-byte-sorted': D.replay_dests_not_byte_sorted}
+        return {'dests-not-byte-sorted': D.replay_dests_not_byte_sorted}
 
     def replay(self, data):
         inp = data.get('input', {})
